@@ -106,6 +106,11 @@ func c04Boundary() []c04Case {
 	// defaults applied by DecodeOffchainConfig (0 -> 1 / 5.3M / 300k)
 	cs = append(cs, c04Case{Family: "config-defaults", Batch: 0, Limit: 0, Overhead: 0, Perfs: []c04Perf{{Upk: 1, Gas: 5000000}, {Upk: 2, Gas: 10}, {Upk: 3, Gas: 4999990}}})
 	cs = append(cs, c04Case{Family: "config-negative-batch", Batch: -3, Limit: L, Overhead: O, Perfs: small(3)})
+	// each default on its own: only the zero field is replaced (batch 1 / limit 5.3M / overhead 300k)
+	cs = append(cs, c04Case{Family: "config-zero-batch-only", Batch: 0, Limit: L, Overhead: O, Perfs: small(4)})
+	cs = append(cs, c04Case{Family: "config-zero-limit-only", Batch: 5, Limit: 0, Overhead: O, Perfs: []c04Perf{{Upk: 1, Gas: 2650000 - uint64(O)}, {Upk: 2, Gas: 2650000 - uint64(O)}, {Upk: 3, Gas: 1}}})
+	cs = append(cs, c04Case{Family: "config-zero-overhead-only", Batch: 5, Limit: 700000, Overhead: 0, Perfs: []c04Perf{{Upk: 1, Gas: 50000}, {Upk: 2, Gas: 50000}, {Upk: 3, Gas: 1}}})
+	cs = append(cs, c04Case{Family: "config-batch-one-stays-one", Batch: 1, Limit: 0, Overhead: 0, Perfs: small(3)})
 	return cs
 }
 
@@ -114,6 +119,16 @@ func c04Random(r *Rng) c04Case {
 	c.Batch = []int{1, 1, 2, 3, 5, 10, 20, 100}[r.Intn(8)]
 	c.Limit = []uint32{1000, 5000, 100000, 5300000}[r.Intn(4)]
 	c.Overhead = []uint32{1, 10, 300, 300000}[r.Intn(4)]
+	if r.Chance(1, 10) { // one of the figures left to its default
+		switch r.Intn(3) {
+		case 0:
+			c.Batch = -r.Intn(3)
+		case 1:
+			c.Limit = 0
+		default:
+			c.Overhead = 0
+		}
+	}
 	n := []int{0, 1, 2, 3, 5, 8, 13, 30, 100}[r.Intn(9)]
 	logNo := 0
 	for i := 0; i < n; i++ {
@@ -126,6 +141,9 @@ func c04Random(r *Rng) c04Case {
 			p = c04Perf{Upk: i + 1}
 		}
 		lim := uint64(c.Limit)
+		if lim == 0 {
+			lim = 5_300_000 // gas figures are drawn around the limit in force; a zero allocation is not a valid result
+		}
 		switch r.Intn(12) {
 		case 0:
 			p.Gas = lim * uint64(2+r.Intn(5)) // alone above the limit
@@ -148,24 +166,6 @@ func c04Random(r *Rng) c04Case {
 		c.FailAt = 1 + r.Intn(4)
 	}
 	return c
-}
-
-// effective config after DecodeOffchainConfig/ensureMinimumDefaults is recomputed by the
-// harness from the *observed* plug-in behaviour only through the JSON it passes; the values the
-// model receives are the ones the property talks about (what the operator configured, after the
-// documented defaults).
-func c04Effective(c c04Case) (int, uint32, uint32) {
-	b, l, o := c.Batch, c.Limit, c.Overhead
-	if b <= 0 {
-		b = 1
-	}
-	if l == 0 {
-		l = 5_300_000
-	}
-	if o == 0 {
-		o = 300_000
-	}
-	return b, l, o
 }
 
 func runC04Case(t *testing.T, c *c04Case) {
@@ -216,7 +216,6 @@ func runC04Case(t *testing.T, c *c04Case) {
 }
 
 func c04Term(c c04Case) string {
-	b, l, o := c04Effective(c)
 	upk := NewInterner()
 	perfs := CoqList(c.Perfs, func(p c04Perf) string {
 		key := fmt.Sprintf("%d", p.Upk)
@@ -228,7 +227,8 @@ func c04Term(c c04Case) string {
 		fail = &c.FailAt
 	}
 	obs := CoqList(c.Obs, func(r []int) string { return CoqList(r, CoqNat) })
-	return fmt.Sprintf("mkRCase (mkCfg %s %d %d) %s %s %s %s", CoqZ(int64(b)), l, o, perfs, CoqOptNat(fail), obs, CoqBool(c.Err))
+	// the model applies ensureMinimumDefaults itself (Model.Reports.ensure_defaults, tied to the source by gen_cfg_defaults)
+	return fmt.Sprintf("mkRCase (effective_cfg %s %d %d) %s %s %s %s", CoqZ(int64(c.Batch)), c.Limit, c.Overhead, perfs, CoqOptNat(fail), obs, CoqBool(c.Err))
 }
 
 func TestC04(t *testing.T) {
